@@ -98,6 +98,11 @@ def check_program(spec, grid, want_coverage=True, max_issues=5, results=None, sk
             if ref[0] in ("Unsupported", "Limit"):
                 stats["skipped_inputs"] += 1
                 continue
+            if ref[0] == "CheatError":
+                # Foundry rejects the cheatcode call itself; halmos must not report a normal outcome for this input
+                if len(issues) < max_issues:
+                    issues.append(Issue("unsound", f"path {idx} claims {fmt_outcome(outcome)}; the cheatcode sequence is an error in Foundry ({ref[1]})", inputs, idx))
+                continue
             if ref[0] in skip_kinds:
                 continue
             stats["outcomes"].add((ref[0], hash(ref[1]) if isinstance(ref[1], bytes) else None, len(ref[2])))
@@ -109,7 +114,7 @@ def check_program(spec, grid, want_coverage=True, max_issues=5, results=None, sk
         elif want_coverage:
             if ref_plain is None:
                 ref_plain, _ = hdriver.run_reference(spec, inputs)
-            if ref_plain[0] in ("Unsupported", "Limit", "Discard"):
+            if ref_plain[0] in ("Unsupported", "Limit", "Discard", "CheatError"):
                 stats["skipped_inputs"] += 1
                 continue
             if len(issues) < max_issues:
